@@ -176,6 +176,34 @@ func (c *gctx) keyTypeNode(label string, kind int) string {
 		for _, s := range []string{"L1234", "Labcde", "LLLLL"} {
 			c.hints[n] = append(c.hints[n], strVal(s))
 		}
+	case 3: // a format type
+		n.Tok, n.Str = `"2020-01-01"`, "2020-01-01"
+		n.Rules = append(n.Rules, StrRule("type", "date"))
+		for _, s := range []string{"2020-01-01", "1999-12-31", "2024-02-29"} {
+			c.hints[n] = append(c.hints[n], strVal(s))
+		}
+	case 4: // const: only the example itself
+		n.Tok, n.Str = `"constkey"`, "constkey"
+		n.Rules = append(n.Rules, BoolRule("const", true))
+		c.hints[n] = append(c.hints[n], strVal("constkey"))
+	case 5: // an example that ends with an escaped quote
+		n.Tok, n.Str = `"q\""`, `q"`
+		n.Rules = append(n.Rules, ref.SRule{Name: "regex", ValKind: ref.RVScalar, Tok: `"^q\"+$"`})
+		for _, s := range []string{`q"`, `q""`} {
+			c.hints[n] = append(c.hints[n], strVal(s))
+		}
+	case 6:
+		n.Tok, n.Str = `"ab@cd.ef"`, "ab@cd.ef"
+		n.Rules = append(n.Rules, StrRule("type", "email"))
+		for _, s := range []string{"ab@cd.ef", "x.y@example.com"} {
+			c.hints[n] = append(c.hints[n], strVal(s))
+		}
+	case 7: // a rule that has nothing to say about strings next to length bounds
+		n.Tok, n.Str = `"nnnnnnnnn"`, "nnnnnnnnn"
+		n.Rules = append(n.Rules, TokRule("minLength", "9"), BoolRule("nullable", true), TokRule("maxLength", "9"))
+		for _, s := range []string{"nnnnnnnnn", "123456789"} {
+			c.hints[n] = append(c.hints[n], strVal(s))
+		}
 	default:
 		n.Tok, n.Str = `"kx"`, "kx"
 		n.Rules = append(n.Rules, ref.SRule{Name: "enum", ValKind: ref.RVEnum, Enum: []ref.EnumItem{{Kind: ref.KString, Tok: `"kx"`, Str: "kx"}, {Kind: ref.KString, Tok: `"ky"`, Str: "ky"}}})
@@ -321,9 +349,13 @@ func (c *gctx) objectNode(i int, self string, depth int, top bool, label string)
 		}
 	}
 	if !hasShortcut && c.draw(0, 3, label+"Shortcut") == 0 {
-		// one or two shortcut entries whose key types accept disjoint key sets (three kinds:
-		// regex ^k[a-c]{2,3}$, length 5..6, enum kx|ky)
-		kinds := rapid.Permutation([]int{0, 1, 2}).Draw(c.t, label+"KTKinds")
+		// one or two shortcut entries whose key types accept disjoint key sets (regex ^k[a-c]{2,3}$,
+		// length 5..6, enum kx|ky, a date, a constant of 8 characters, q followed by quotes, an
+		// e-mail address of more than 6 characters, length 9)
+		kinds := rapid.Permutation([]int{0, 1, 2, 0, 1, 2, 3, 4, 5, 6, 7}).Draw(c.t, label+"KTKinds")
+		if kinds[0] == kinds[1] {
+			kinds[1] = (kinds[0] + 1) % 8
+		}
 		cnt := 1 + c.draw(0, 1, label+"TwoShortcuts")
 		for k := 0; k < cnt; k++ {
 			kn := c.keyTypeNode(fmt.Sprint(label, "KT", k), kinds[k])
